@@ -22,7 +22,10 @@ SPEC = {
                     "pacing is measured where frames are produced; under driver back-pressure frames leave later through the send queue (C11)",
                     "theorems about emitted frames assume a 'quiet' node (device may transmit, queue empty, driver accepts); the "
                     "back-pressure paths are covered by the correspondence run only",
-                    "end-to-end theorem: one device per node, no time passes during the RTS/CTS exchange (see Props/C10.lean)"],
+                    "end-to-end theorems (RTS/CTS and BAM): one device per node, the two nodes poll alternately, any delays below the "
+                    "sender's timeouts (RTS/CTS: < 50 ms before the first CTS, < 100 ms afterwards; BAM: >= 51 ms between the sender's "
+                    "polls); idle polls in between are no-ops (poll_idle)",
+                    "free receive slots carry TPRequireCTS = 0 (constructor / FreeMessage invariant; hypothesis of the BAM end-to-end theorem)"],
 }
 MANIFEST = {
     'text': "Theorems over a hand model of both protocol roles: packetisation for every length 9..223 equals the J1939-21 closed "
@@ -31,8 +34,9 @@ MANIFEST = {
             "BAM data packets are >= 50 ms apart for both scheduler flavours (exact bound per flavour); the receiver answers an "
             "admissible RTS with CTS, the final packet with an end-of-message ACK with the right counts and exactly one delivery "
             "carrying the embedded PGN and the payload, a wrong sequence number frees the slot, sends Abort and delivers nothing; "
-            "sessions time out and later transfers start; library sender and library receiver composed over a loss-free channel "
-            "complete the transfer. Correspondence: the real tNMEA2000 (both timer builds) against a scripted reference peer in both "
+            "sessions time out and later transfers start; library sender and library receiver composed over a loss-free in-order "
+            "channel complete the transfer with exactly one intact delivery, for RTS/CTS and for BAM, under every poll schedule "
+            "within the timeouts (one device per node, alternating polls: theorems are named _partial). Correspondence: the real tNMEA2000 (both timer builds) against a scripted reference peer in both "
             "roles (every length, grants 1..255, holds, late answers, aborts, silence, every single dropped/duplicated/reordered "
             "frame, concurrent sources, fast-packet cross traffic, malformed frames) and two real nodes back to back, compared line "
             "by line with the model; an independent bus monitor checks the statement.",
